@@ -17,6 +17,16 @@ using namespace yorel::yomm2;
 '''
 
 
+# first statements of main() in generated programs: line-buffered log, and a last word when the program dies, so that the trace
+# shows where (needs <csignal> and <unistd.h>, which PRELUDE_DEATH brings in)
+PRELUDE_DEATH = "#include <csignal>\n#include <unistd.h>\n"
+MAIN_DEATH = r'''    std::setvbuf(stdout, nullptr, _IOLBF, 1 << 16);
+    for (int sig : {SIGSEGV, SIGABRT, SIGBUS, SIGFPE}) std::signal(sig, [](int s) {
+        char m[] = "{\"e\":\"died\",\"sig\":00}\n"; m[18] = char(48 + s / 10); m[19] = char(48 + s % 10);
+        if (write(1, m, sizeof m - 1)) {} _exit(128 + s); });
+'''
+
+
 def _build_run(args):
     name, text, cxx, flags, d = args
     src = os.path.join(d, name + ".cpp")
